@@ -200,11 +200,13 @@ class Lagrange(Interpolator, StringSerializable):
                 Nx_old = old_state.x_grids[var].shape[0]
                 Nx_new = grid.shape[0]
                 if Nx_new > Nx_old:
-                    weights[var] = np.pad(weights[var], [(0, Nx_new - Nx_old)], mode='constant', constant_values=np.nan)
+                    # Recompute all weights of the grown grid with the current interval capacity: the domain (hence the
+                    # capacity) may have changed since the old weights were computed, and mixing capacities gives
+                    # weights that no longer belong to one barycentric formula
                     C = (bds[1] - bds[0]) / self.interval_capacity
-                    for j in range(Nx_old, Nx_new):
-                        weights[var][:j] *= (C / (grid[:j] - grid[j]))
-                        weights[var][j] = np.prod(C / (grid[j] - grid[:j]))
+                    dist = (grid.reshape((Nx_new, 1)) - grid.reshape((1, Nx_new))) / C
+                    np.fill_diagonal(dist, 1)
+                    weights[var] = 1.0 / np.prod(dist, axis=1)
 
         return LagrangeState(weights=weights, x_grids=x_grids)
 
